@@ -1,4 +1,5 @@
 """C02 — All for-each-client backends equal the sequential per-client fold."""
+import collections
 import threading
 import time
 
@@ -206,9 +207,9 @@ def run_program(ctx, jax, jnp, fedjax, fec, rng, nds):
     if not r.ok:
       continue
     out = r.value
-    got_ids = sorted(t[0] for t in out)
-    ctx.check(got_ids == sorted(c for c, _, _ in clients_np), f'ids/multiset-{fam}',
-              f'[{name}] yielded ids {got_ids} != input ids', w)
+    got_ids = [t[0] for t in out]
+    ctx.check(collections.Counter(map(repr, got_ids)) == collections.Counter(repr(c) for c, _, _ in clients_np),
+              f'ids/multiset-{fam}', f'[{name}] yielded ids {got_ids} != input ids', w)
     for t in out:
       cid = t[0]
       if cid not in expected:
